@@ -365,7 +365,12 @@ func oracle(c CaseIn, o CaseOut, base, baseE plan) verdict {
 			saved := true
 			switch c.Scen.Backend {
 			case "ASA", "IOS":
-				saved = len(got) >= 2 && (got[len(got)-2] == "write memory" || (got[len(got)-3] == "write memory" && got[len(got)-2] == ""))
+				g := got
+				if len(g) > 0 && g[len(g)-1] == "exit" {
+					g = g[:len(g)-1]
+				}
+				n := len(g)
+				saved = n >= 1 && (g[n-1] == "write memory" || (n >= 2 && g[n-2] == "write memory" && g[n-1] == ""))
 			case "Linux":
 				saved = (!base.ipt || o.ScpTables) && (len(want) == 0 || o.ScpRouting)
 			case "PAN-OS":
@@ -723,6 +728,12 @@ func evalCases(ctx *Ctx, res *Result, drv *Nadrv, cases []CaseIn, nw int, verbos
 		model := fmt.Sprintf("exit=%s status=%s end=%s err=%s chg=%s scp=%s sends=%s", mExit, mStatus, mEnd, m["err"], m["chg"], m["scp"],
 			strings.Join(modelSends, ";"))
 		res.TracesVsImpl++
+		if impl != model && impl+";exit" == model {
+			// goexpect hands "exit" to its writer goroutine and the program ends: the final
+			// clean-up line can be lost before it reaches the pty (seen about once in 7000 runs)
+			res.Count("final_exit_line_not_observed")
+			impl = model
+		}
 		if impl != model {
 			res.Disagree("fault-matrix", c, impl, model)
 		}
